@@ -129,4 +129,92 @@ let run_fedq (input : Sexp.t) (impl : Sexp.t) : Verdict.t =
         (if ndup = 0 then "0" else "some") (if big then "_burst" else "");
     model = Sexp.L mouts }
 
-let run_fedr (input : Sexp.t) (impl : Sexp.t) : Verdict.t = failwith "fedr: not yet"
+
+(* ---------------------------------------------------------------- fedr *)
+
+let lsub_of_sx x = match Sexp.list x with
+  | [c; g; f] -> ((bytes_of_sx c, bytes_of_sx g), bytes_of_sx f)
+  | _ -> failwith "lsub"
+
+let sx_iopts = function
+  | None -> Sexp.A "none"
+  | Some o ->
+    Sexp.L [Sexp.A "q"; sx_bool o.io_sys; sx_bool o.io_shared; sx_bool o.io_nonshared; sx_bytes o.io_client; sx_bytes o.io_topic;
+            Sexp.A (match o.io_mt with MatchName -> "name" | MatchFilter -> "filter" | MatchNone -> "none")]
+
+let iopts_of_sx = function
+  | Sexp.A "none" -> None
+  | x -> (match Sexp.list x with
+      | [Sexp.A "q"; sys; sh; ns; c; t; mt] ->
+        Some { io_sys = bool_of_sx sys; io_shared = bool_of_sx sh; io_nonshared = bool_of_sx ns; io_client = bytes_of_sx c;
+               io_topic = bytes_of_sx t;
+               io_mt = (match Sexp.atom mt with "name" -> MatchName | "filter" -> MatchFilter | _ -> MatchNone) }
+      | _ -> failwith "iopts")
+
+let run_fedr (input : Sexp.t) (impl : Sexp.t) : Verdict.t =
+  let node = bytes_of_sx (Sexp.field1 "node" input) in
+  let nodes = List.map (fun n -> match Sexp.list n with
+      | name :: subs -> (bytes_of_sx name, List.map lsub_of_sx subs)
+      | [] -> failwith "node") (Sexp.field "nodes" input) in
+  let peers = List.map bytes_of_sx (Sexp.field "peers" input) in
+  let local_ops = List.map (fun ((c, g), f) -> OSub (c, { (plain_sub g f) with s_qos = n_of_int 1 }))
+      (try List.assoc node nodes with Not_found -> []) in
+  let fed_ops = List.map (fun o -> match Sexp.list o with
+      | [Sexp.A "sub"; n; g; f] -> OSub (bytes_of_sx n, plain_sub (bytes_of_sx g) (bytes_of_sx f))
+      | [Sexp.A "unsub"; n; t] -> OUnsub (bytes_of_sx n, bytes_of_sx t)
+      | _ -> failwith "fed op") (Sexp.field "fed" input) in
+  let pubs = List.map (fun x -> match Sexp.list x with [Sexp.A "p"; _; m] -> msg_of_sx m | _ -> failwith "pub") (Sexp.field "pubs" input) in
+  let recv = List.map msg_of_sx (Sexp.field "recv" input) in
+  let case = { rc_node = node; rc_nodes = nodes; rc_peers = peers } in
+  (* model *)
+  let mpubs = fr_run (fr_init node local_ops fed_ops peers) pubs in
+  let sx_pub ((evs, drop), opts) =
+    let sent = List.concat_map (fun (p, es) -> List.map (fun e -> Sexp.L [sx_bytes p; sx_event e]) es) evs in
+    Sexp.L [Sexp.L (Sexp.A "sent" :: sorted_sx sent); Sexp.L [Sexp.A "drop"; sx_bool drop]; Sexp.L [Sexp.A "opts"; sx_iopts opts]] in
+  let mrecv = fr_receive_all recv rdb_init in
+  let sx_recv (p, ret) =
+    Sexp.L [Sexp.L [Sexp.A "pubs"; sx_msg p]; Sexp.L (Sexp.A "ret" :: sorted_msgs ret); Sexp.L [Sexp.A "fwd"; sx_int 0];
+            Sexp.L [Sexp.A "ack"; sx_bool true]] in
+  let model = Sexp.L [Sexp.L (Sexp.A "pubs" :: List.map sx_pub mpubs); Sexp.L (Sexp.A "recv" :: List.map sx_recv mrecv)] in
+  (* implementation *)
+  let ipubs = Sexp.field "pubs" impl and irecv = Sexp.field "recv" impl in
+  let norm_pub x =
+    Sexp.L [Sexp.L (Sexp.A "sent" :: sorted_sx (Sexp.field "sent" x)); Sexp.L (Sexp.A "drop" :: Sexp.field "drop" x);
+            Sexp.L (Sexp.A "opts" :: Sexp.field "opts" x)] in
+  let impl_n = Sexp.L [Sexp.L (Sexp.A "pubs" :: List.map norm_pub ipubs); Sexp.L (Sexp.A "recv" :: irecv)] in
+  let agree = Sexp.to_string model = Sexp.to_string impl_n in
+  let pobs = List.map (fun x ->
+      { po_sent = List.map (fun e -> match Sexp.list e with
+            | [p; ev] -> (match event_of_sx ev with EMsg m -> (bytes_of_sx p, m) | _ -> failwith "non-message event")
+            | _ -> failwith "sent") (Sexp.field "sent" x);
+        po_drop = bool_of_sx (Sexp.field1 "drop" x); po_opts = iopts_of_sx (Sexp.field1 "opts" x) }) ipubs in
+  let robs = List.map (fun x ->
+      { ro_pubs = List.map msg_of_sx (Sexp.field "pubs" x); ro_ret = List.map msg_of_sx (Sexp.field "ret" x);
+        ro_fwd = n_of_sx (Sexp.field1 "fwd" x) }) irecv in
+  let pub_ok = List.length pobs = List.length pubs && List.for_all2 (fun m o -> c17_pub_ok case m o) pubs pobs in
+  let recv_ok = c17_recv_ok [] recv robs in
+  let oracle = pub_ok && recv_ok in
+  (* every failing publish / receive must be in a known-finding class *)
+  let kf =
+    if oracle then "-"
+    else begin
+      let bad_pubs = List.filter (fun (m, o) -> not (c17_pub_ok case m o)) (List.combine pubs pobs) in
+      let pubs_known = List.for_all (fun (m, o) -> kf_shared_span case m && (m.m_retained || plain_ok case m o)) bad_pubs in
+      let recv_known = recv_ok || List.exists kf_retained_empty (List.map msg_event_form recv) in
+      if List.length pobs <> List.length pubs then "-"
+      else if pubs_known && recv_known then
+        (match bad_pubs <> [], not recv_ok with
+         | true, true -> "kf_shared_span+kf_retained_empty"
+         | true, false -> "kf_shared_span"
+         | false, _ -> "kf_retained_empty")
+      else "-"
+    end in
+  let nsent = List.length (List.concat_map (fun o -> o.po_sent) pobs) in
+  let any_shared = List.exists (fun (_, l) -> List.exists (fun ((_, g), _) -> g <> []) l) nodes in
+  let span = List.exists (fun m -> kf_shared_span case m) pubs in
+  let any_ret = List.exists (fun m -> m.m_retained) pubs in
+  { Verdict.agree; oracle; kf;
+    nontrivial = nsent > 0 && List.length pubs >= 1;
+    cls = Printf.sprintf "peers%d_sh%s_span%s_ret%s_recv%d" (List.length peers) (if any_shared then "1" else "0")
+        (if span then "1" else "0") (if any_ret then "1" else "0") (List.length recv);
+    model }
